@@ -122,6 +122,17 @@ func ocspBehaviours() []ocspBehaviour {
 		add("good/"+signer, clsGood, func(w *ocspWorld) netsim.Answer { return okResp(sign(w, single(w, pki.OCSPGood))) })
 		add("revoked/"+signer, clsRevoked, func(w *ocspWorld) netsim.Answer { return okResp(sign(w, single(w, pki.OCSPRevoked))) })
 		add("unknown-status/"+signer, clsUnknown, func(w *ocspWorld) netsim.Answer { return okResp(sign(w, single(w, pki.OCSPUnknown))) })
+		// an invalidity date only qualifies a revocation: on an Unknown or Good answer it changes nothing
+		add("unknown-status-invalidity+1/"+signer, clsUnknown, func(w *ocspWorld) netsim.Answer {
+			s := single(w, pki.OCSPUnknown)
+			s.Invalidity = w.st.Add(time.Hour)
+			return okResp(sign(w, s))
+		})
+		add("good-invalidity-1/"+signer, clsGood, func(w *ocspWorld) netsim.Answer {
+			s := single(w, pki.OCSPGood)
+			s.Invalidity = w.st.Add(-time.Hour)
+			return okResp(sign(w, s))
+		})
 		for _, inv := range []int{-1, 0, 1} {
 			inv := inv
 			out = append(out, ocspBehaviour{name: fmt.Sprintf("revoked-invalidity%+d/%s", inv, signer), class: clsRevokedInv, inv: inv, make: func(w *ocspWorld) netsim.Answer {
